@@ -16,7 +16,7 @@ func expectedCosts() costs {
 	gt := cfg.GasTableEIP158
 	fee := uint64(types.MinGasLimit)
 	return costs{
-		CFrame:        2*step + step + mem,
+		CFrame:        step + 2 + 2*step + step + mem,
 		CWork:         3*step + 2,
 		CSStore:       2*step + cfg.SstoreSetGas,
 		CLog:          3*step + cfg.LogGas + cfg.LogTopicGas,
